@@ -47,7 +47,10 @@ def op_term(r):
 
 
 def case_term(r):
-    exact = "true" if r["fam"] in (3, 4) else "false"
+    # zero-slack judgement only where every sum the operation decides on is exactly representable: dyadic intensities
+    # for the raw cumulative sums; for the truncation iterator (which works on the normalised template) only the dyadic
+    # family that sums to exactly 1, where normalising changes nothing
+    exact = "true" if (r["fam"] == 3 or (r["fam"] == 4 and r["op"] != "incremental")) else "false"
     step = out_term(r["stepwise"]) if "stepwise" in r else "OutPanic"
     return "mkPC %d %s %s %s %s %s" % (r["id"], exact, tip(r["pat"], r["origin"]), op_term(r), out_term(r["out"]), step)
 
